@@ -565,7 +565,7 @@ def check_path(spec, inst, st, res, rng, tr, seeds, angle_pins, g):
                 # optional (additive): the path's own seed satisfies the path condition by construction; if it satisfies the obligation's
                 # hypotheses and falsifies its goal numerically, the seed is a counterexample: replay it like a solver model.
                 try:
-                    hy0, go0, det0 = goal_numeric(enc, ob)
+                    hy0, go0, det0 = goal_numeric(enc, ob, tol=inst.get("replay_tol", 1e-7))
                     finite = all(v == v and abs(v) != math.inf for (_, v, _, _) in det0)
                 except (KeyError, OverflowError):
                     hy0, go0, finite = True, True, False
@@ -729,7 +729,7 @@ def handle_sat(spec, inst, st, res, tr, enc, ob, model, seeds, angle_pins, free,
     if ob2 is None:
         res.abstraction_cex.append(dict(instance=inst["name"], obligation=ob.name, reason="obligation absent on replayed path"))
         return
-    hy, go, detail = goal_numeric(enc2, ob2)
+    hy, go, detail = goal_numeric(enc2, ob2, tol=inst.get("replay_tol", 1e-7))
     if hy and not go:
         inputs = {n: nsd.get(n, sd) for n, k, _, sd in tr2.inputs}
         viol = dict(property=spec.ID, instance=inst["name"], args=inst.get("args", []), harness=os.path.basename(inst["binary"]),
